@@ -74,3 +74,48 @@ func sm3cf(v [8]uint32, b []byte) [8]uint32 {
 	}
 	return [8]uint32{v[0] ^ A, v[1] ^ B, v[2] ^ C, v[3] ^ D, v[4] ^ E, v[5] ^ F, v[6] ^ G, v[7] ^ H}
 }
+
+// SM3Stream is the same reference in incremental form (for streams too long to hold in
+// memory twice); it shares sm3cf with SM3 and is checked against it by SelfTest.
+type SM3Stream struct {
+	v   [8]uint32
+	buf []byte
+	n   uint64
+}
+
+func NewSM3Stream() *SM3Stream {
+	return &SM3Stream{v: [8]uint32{0x7380166f, 0x4914b2b9, 0x172442d7, 0xda8a0600, 0xa96f30bc, 0x163138aa, 0xe38dee4d, 0xb0fb0e4e}}
+}
+
+func (s *SM3Stream) Write(p []byte) {
+	s.n += uint64(len(p))
+	s.buf = append(s.buf, p...)
+	off := 0
+	for len(s.buf)-off >= 64 {
+		s.v = sm3cf(s.v, s.buf[off:off+64])
+		off += 64
+	}
+	s.buf = append(s.buf[:0], s.buf[off:]...)
+}
+
+// Sum returns the digest of everything written so far without disturbing the stream.
+func (s *SM3Stream) Sum() [32]byte {
+	l := s.n * 8
+	m := append([]byte{}, s.buf...)
+	m = append(m, 0x80)
+	for len(m)%64 != 56 {
+		m = append(m, 0)
+	}
+	for i := 7; i >= 0; i-- {
+		m = append(m, byte(l>>(8*uint(i))))
+	}
+	v := s.v
+	for off := 0; off < len(m); off += 64 {
+		v = sm3cf(v, m[off:off+64])
+	}
+	var out [32]byte
+	for i, x := range v {
+		out[4*i], out[4*i+1], out[4*i+2], out[4*i+3] = byte(x>>24), byte(x>>16), byte(x>>8), byte(x)
+	}
+	return out
+}
